@@ -144,6 +144,12 @@ def gen_pair(rng, hostile=False):
     return {"kind": "pair", "callee": callee_src(c), "callee_name": name, "caller": src, "args": cargs, "ret": rt, "inline": inline, "hostile": hostile}
 
 
+def setup():
+    from ..monitors import reach
+
+    reach.install_paths(['qlasskit.ast2logic.env:Env.bind_function', 'qlasskit.qlassfun:QlassF.to_logicfun', 'qlasskit.algorithms.qalgorithm:oraclize'])
+
+
 def cases(tier, seed):
     rng = random.Random(7000 + seed)
     for c in CORPUS:
@@ -179,6 +185,15 @@ def fingerprint(qf):
 
 
 def check(case):
+    from ..monitors import reach
+
+    r = _check_inner(case)
+    if isinstance(r, dict):
+        r.setdefault("counters", {}).update(reach.take())
+    return r
+
+
+def _check_inner(case):
     from qlasskit import qlassf
 
     if case["kind"] == "oraclize":
